@@ -6,6 +6,7 @@ import (
 	"bufio"
 	"fmt"
 	"io"
+	"math"
 	"os"
 	"os/exec"
 	"strconv"
@@ -172,7 +173,11 @@ func (s *Solver) define(t *Term) {
 		}
 		tt := f.t
 		if tt.Op == OVar {
-			s.send(fmt.Sprintf("(declare-const |%s| %s)", tt.N, tt.S.SMT()))
+			sortName := tt.S.SMT()
+			if tt.S.K == KReal && tt.P == 1 {
+				sortName = "Int"
+			}
+			s.send(fmt.Sprintf("(declare-const |%s| %s)", tt.N, sortName))
 		} else {
 			s.send(fmt.Sprintf("(define-fun t%d () %s %s)", tt.ID, tt.S.SMT(), tt.body()))
 		}
@@ -272,7 +277,7 @@ func (s *Solver) OneShot(pc []*Term, extra []*Term, vars []*Term, timeoutS int) 
 			return
 		}
 		seen[t.ID] = true
-		if t.S.K == KFP {
+		if t.S.K == KFP || t.S.K == KReal {
 			hasFP = true
 		}
 		for _, a := range t.A {
@@ -292,7 +297,11 @@ func (s *Solver) OneShot(pc []*Term, extra []*Term, vars []*Term, timeoutS int) 
 	}
 	for _, t := range order {
 		if t.Op == OVar {
-			fmt.Fprintf(&sb, "(declare-const |%s| %s)\n", t.N, t.S.SMT())
+			sortName := t.S.SMT()
+			if t.S.K == KReal && t.P == 1 {
+				sortName = "Int"
+			}
+			fmt.Fprintf(&sb, "(declare-const |%s| %s)\n", t.N, sortName)
 		} else {
 			fmt.Fprintf(&sb, "(define-fun t%d () %s %s)\n", t.ID, t.S.SMT(), t.body())
 		}
@@ -367,7 +376,7 @@ func (s *Solver) Model(vars []*Term) map[string]uint64 {
 	var names []string
 	for _, v := range vars {
 		if s.defined[v.ID] {
-			names = append(names, v.ref())
+			names = append(names, "|"+v.N+"|")
 		}
 	}
 	if len(names) == 0 {
@@ -427,9 +436,43 @@ func parseModel(txt string, m map[string]uint64) {
 			i++
 			v, _ := strconv.ParseUint(t[2:], 2, 64)
 			return v, true
+		case t != "" && (t[0] >= '0' && t[0] <= '9'):
+			i++
+			t = strings.TrimSuffix(t, "?")
+			f, err := strconv.ParseFloat(t, 64)
+			if err != nil {
+				return 0, false
+			}
+			return math.Float64bits(f), true
 		case t == "(":
 			// (fp s e m) | (_ bvN w) | (_ +oo 11 53) | (_ NaN 11 53) ...
 			i++
+			if i < len(toks) && (toks[i] == "-" || toks[i] == "/") {
+				op := toks[i]
+				i++
+				a, ok1 := parseVal()
+				var b uint64
+				ok2 := false
+				if i < len(toks) && toks[i] != ")" {
+					b, ok2 = parseVal()
+				}
+				if i < len(toks) && toks[i] == ")" {
+					i++
+				}
+				if !ok1 {
+					return 0, false
+				}
+				fa := math.Float64frombits(a)
+				switch {
+				case op == "-" && !ok2:
+					return math.Float64bits(-fa), true
+				case op == "-":
+					return math.Float64bits(fa - math.Float64frombits(b)), true
+				case ok2:
+					return math.Float64bits(fa / math.Float64frombits(b)), true
+				}
+				return 0, false
+			}
 			if i < len(toks) && toks[i] == "fp" {
 				i++
 				a, _ := parseVal()
